@@ -1,6 +1,7 @@
 import SLModel.Core.TopK
 import SLModel.Lemmas.TopKBridge
 import SLModel.Lemmas.WandLoop
+import SLModel.Lemmas.BTop
 /-!
 # C09 — pruned top-k (wand, bmw) equals exhaustive top-k (bm25)
 
@@ -108,6 +109,80 @@ theorem hook_ok_of_adjust_le (k : Nat) (hk : 0 < k) (s : SegIn) (hwf : s.wf = tr
       exact incr_pairwise _ hwf.1.1.1
     have := h d v (s.sc_of_mem hdocs d (some v) hx)
     simpa using this
+
+/-! ## per-segment truncation and merge -/
+
+theorem ins_eq_sort (x : Hit) (l : List Hit) : ins x l = SL.Sort.ins better x l := by
+  induction l with
+  | nil => rfl
+  | cons y ys ih => simp [ins, SL.Sort.ins, ih]
+
+theorem sortHits_eq_sort (l : List Hit) : sortHits l = SL.Sort.isort better l := by
+  induction l with
+  | nil => rfl
+  | cons y ys ih => simp [sortHits, SL.Sort.isort, ins_eq_sort, ih]
+
+theorem best_eq_topk (k : Nat) (l : List Hit) : best k l = SL.Sort.topk better k l := by
+  simp [best, SL.Sort.topk, sortHits_eq_sort]
+
+def globs : Nat → List (List Hit) → List (List Hit)
+  | _, [] => []
+  | i, hs :: rest => globalise i hs :: globs (i + 1) rest
+
+theorem mergeSegs_eq_flatten : ∀ (Ls : List (List Hit)) (i : Nat),
+    mergeSegs i Ls = (globs i Ls).flatten := by
+  intro Ls
+  induction Ls with
+  | nil => intro i; rfl
+  | cons L r ih => intro i; simp [mergeSegs, globs, ih]
+
+theorem globalise_best (i k : Nat) (L : List Hit) :
+    globalise i (best k L) = best k (globalise i L) := by
+  have hf : ∀ a b : Hit, better a b =
+      better ((fun h : Hit => (h.1, i * segBase + h.2)) a) ((fun h : Hit => (h.1, i * segBase + h.2)) b) := by
+    intro a b
+    simp [better]
+  unfold globalise
+  rw [best_eq_topk, best_eq_topk]
+  unfold SL.Sort.topk
+  rw [List.map_take, SL.Sort.map_isort _ hf]
+
+theorem globs_map_best (k : Nat) : ∀ (Ls : List (List Hit)) (i : Nat),
+    globs i (Ls.map (best k)) = (globs i Ls).map (best k) := by
+  intro Ls
+  induction Ls with
+  | nil => intro i; rfl
+  | cons L r ih => intro i; simp [globs, globalise_best, ih]
+
+/-- truncating every segment to its `k` best before the merge does not change the `limit ≤ k`
+best of the merge -/
+theorem merge_topk (k limit : Nat) (h : limit ≤ k) (Ls : List (List Hit)) :
+    best limit (mergeSegs 0 (Ls.map (best k))) = best limit (mergeSegs 0 Ls) := by
+  rw [mergeSegs_eq_flatten, mergeSegs_eq_flatten, globs_map_best, best_eq_topk, best_eq_topk]
+  have hmap : (globs 0 Ls).map (best k) = (globs 0 Ls).map (SL.Sort.topk better k) :=
+    List.map_congr_left fun l _ => best_eq_topk k l
+  rw [hmap, ← SL.Sort.take_topk k limit h, ← SL.Sort.take_topk k limit h (globs 0 Ls).flatten,
+    ← SL.Sort.topk_flatten better_strictTotal k]
+
+/-- **`execution = bm25` end to end**: per-segment `limit+1`-heaps, merge, sort, truncate = the
+`limit` best of all accepted candidates of all segments -/
+theorem search_bm25_eq_global_best (k limit : Nat) (h : limit ≤ k) (segs : List SegIn) :
+    search .bm25 k limit segs = best limit (mergeSegs 0 (segs.map SegIn.hits)) := by
+  unfold search
+  have : segs.map (runSeg .bm25 k) = (segs.map SegIn.hits).map (best k) := by
+    rw [List.map_map]
+    apply List.map_congr_left
+    intro s _
+    simp [runSeg, brute]
+  rw [this, merge_topk k limit h]
+
+/-- **C09, `wand`, end to end** (`_partial`: `boundsOk` excludes the score-hook defect): the hits
+of `execution = wand` are the `limit` best accepted candidates of the whole index -/
+theorem search_wand_eq_global_best_partial (k limit : Nat) (hk : 0 < k) (h : limit ≤ k)
+    (segs : List SegIn)
+    (hs : ∀ s ∈ segs, s.scan = true ∨ (s.wf = true ∧ boundsOk s = true)) :
+    search .wand k limit segs = best limit (mergeSegs 0 (segs.map SegIn.hits)) := by
+  rw [search_wand_eq_bm25_partial k limit hk segs hs, search_bm25_eq_global_best k limit h]
 
 /-! ## negative witnesses (kernel-checked by `decide`, replayed on the code by `corpus/C09`) -/
 
